@@ -168,6 +168,11 @@ def _random_tracks(draw, ctx):
         if mask and len(group) > 1 and draw(st.integers(0, 3)) == 0:
             # flag lines before / between the lane lines (any line order within a lane note's tick)
             group = list(draw(st.permutations(group)))
+        if mask and draw(st.integers(0, 7)) == 0:
+            # a lane line written twice, verbatim (the tick names the same lanes as before)
+            lane_lines = [g for g in group if g[1] == "N" and g[2] <= 4]
+            dup = list(draw(st.sampled_from(lane_lines)))
+            group.insert(draw(st.integers(0, len(group))), dup)
         items += group
     # the rule is about ticks, not time: tempo changes in the middle of the track must not matter
     tempo = [[0, draw(st.sampled_from([120000, 60000, 250000, 1000]))]]
